@@ -436,13 +436,13 @@ func c04Wire() *explore.Scenario {
 }
 
 func c04Scenarios(thorough bool) []*explore.Scenario {
-	return []*explore.Scenario{c04Boring(), c04QUIC(thorough), c04Wire()}
+	return []*explore.Scenario{c04Boring(), c04QUIC(thorough), c04Wire(), shortReadsScenario("C04", gridClients(1, false))}
 }
 
 func init() {
 	register(&Prop{ID: "C04", Level: "exploration", Variant: "A", Scenarios: c04Scenarios,
 		Run: func(c *explore.Check, thorough bool) {
-			c.Rule = "GetBoringGREASEValue on all 65536 seed words x every index; GetGREASEVersion with every byte value at each of the 4 entropy positions x 8 context patterns (crypto/rand scripted); GetGREASEID on 6^6 (6^8 thorough) boundary-byte draws; GREASETransportParameter ID/Value/override; on the wire: every ID (6 seeds for randomized kinds) x {direct, fingerprinted copy} x all 256 forced (ext1,ext2) seed nibble pairs x 4 connections with pinned GREASE seed words. non-trivial = hello carried GREASE; distinct = (id, mode, pair)"
+			c.Rule = "every client: GREASE words identical whether a deterministic Config.Rand delivers whole reads or one byte per Read; GetBoringGREASEValue on all 65536 seed words x every index; GetGREASEVersion with every byte value at each of the 4 entropy positions x 8 context patterns (crypto/rand scripted); GetGREASEID on 6^6 (6^8 thorough) boundary-byte draws; GREASETransportParameter ID/Value/override; on the wire: every ID (6 seeds for randomized kinds) x {direct, fingerprinted copy} x all 256 forced (ext1,ext2) seed nibble pairs x 4 connections with pinned GREASE seed words. non-trivial = hello carried GREASE; distinct = (id, mode, pair)"
 			c.Assumptions = []string{"GREASE seed words are drawn by ApplyPreset in one Config.Rand read of 2*indexes bytes (pinned by the scripted reader); freshness is decided as dependence on that connection's entropy"}
 			runAll(c, c04Scenarios(thorough), 0)
 			c.Extra["function_evaluations"] = c.Total.Counters["function_evaluations"]
